@@ -97,7 +97,13 @@ func c08Child(args []string) {
 	if stepwise {
 		vos.RemoveAllFn = func(p string) error { return stepwiseRemoveAll(p) }
 	}
-	d := bt.NewDriver("disk", dir)
+	// the serving process is the real thing: public constructor (loads what the directory holds),
+	// listener, gRPC registration, background GC goroutine
+	d, err := bt.NewDriverReal("disk", dir)
+	if err != nil {
+		fmt.Fprintln(os.Stderr, err)
+		os.Exit(3)
+	}
 	for i := range ops {
 		point(fmt.Sprintf("before-request-%d", i))
 		inRequest = true
@@ -200,7 +206,10 @@ func recoverAndCompare(c *fw.Ctx, dir string, cands []*bt.Model) (bad string) {
 				bad = fmt.Sprintf("starting the emulator again on the directory fails: %v", r)
 			}
 		}()
-		d = bt.NewDriver("disk", dir)
+		var err error
+		if d, err = bt.NewDriverReal("disk", dir); err != nil {
+			bad = fmt.Sprintf("starting the emulator again on the directory fails: %v", err)
+		}
 	}()
 	if bad != "" {
 		return bad
@@ -232,6 +241,8 @@ func runC08Case(c *fw.Ctx, cs c08Case, stepwise bool) (string, string) {
 		if errText != "" {
 			return "child", errText
 		}
+		c.Trans(int64(len(acks)) + 1) // requests executed by the serving process + the restart
+		c.Trace(1)
 		if seg.Kill >= 0 && !killed {
 			// the kill point lies beyond the program: nothing to check for this index
 			return "", "beyond"
@@ -266,7 +277,10 @@ func runC08Case(c *fw.Ctx, cs c08Case, stepwise bool) (string, string) {
 		}
 		// which of the candidates holds decides how the next segment's model continues
 		if len(cands) == 2 {
-			d := bt.NewDriver("disk", dir)
+			d, err := bt.NewDriverReal("disk", dir)
+			if err != nil {
+				return "recovery", "second start on the directory fails: " + err.Error()
+			}
 			w := &btWorld{drv: d, model: cands[1], stateCheck: true, famCache: map[string][]string{}}
 			if w.CompareState() == "" {
 				model = cands[1]
